@@ -71,6 +71,8 @@ ApplyV(f, x, empty, H, log, fuel) ==
      R(IF h = None THEN U ELSE IF h[1] = [t |-> "ARG"] THEN x ELSE h[1],
        Append(log, [cb |-> "apply", ext |-> f.v, arg |-> x, answered |-> h # None]))
   ELSE IF f.t \in {"list", "pair"} /\ x.t \in {"int", "sym"} THEN R(AccessV(f, x), log)
+  ELSE IF f.t \in {"str", "bytes"} /\ x.t = "range" THEN R(IF IntRange(x) THEN [t |-> "slice", l |-> f, r |-> x] ELSE SKIP, log)
+  ELSE IF f.t \in {"str", "bytes"} /\ x.t = "int" THEN R(U, log)        \* text is indexed with `.`, applying it to a number is not defined
   ELSE IF f.t \in {"list", "pair", "str", "bytes"} /\ x.t = "float" THEN R(SKIP, log)      \* fractional index: not specified
   ELSE IF f.t \in {"range", "slice", "sym", "symlist", "concat", "str", "bytes"} THEN R(SKIP, log)
   ELSE IF f.t = "list" /\ x.t = "range" THEN R(IF IntRange(x) THEN [t |-> "slice", l |-> f, r |-> x] ELSE SKIP, log)     \* a list applied to a range is the slice
@@ -156,6 +158,7 @@ Eval(t, cur, H, log, fuel) ==
                   [] l = "acc" -> AccessV(x, y)
                   [] l = "cat" -> [t |-> "concat", l |-> x, r |-> y]
                   [] l = "part" -> [t |-> "partial", l |-> x, r |-> y]
+                  [] l = "cast" -> CastV(x, y)
                   [] l = "tyeq" -> (IF x.t = "type" \/ y.t = "type" THEN SKIP ELSE B(TypeName(x) = TypeName(y)))
                   [] l \in {"rng", "rngs", "rnge", "rngx"} ->
                        (IF ~(IsNum(x) /\ IsNum(y)) THEN U
